@@ -147,7 +147,7 @@ class Gen(object):
             return NOCOUNT, Fraction(1), False
         if decimal_ok and u < 0.55:
             fd = r.choice([1, 1, 2, 3])
-            ip = r.choice([0, 0, 1, 2, 3, 7])
+            ip = r.choice([0, 0, 1, 2, 3, 7, 10, 12])
             fp = r.randrange(1, 10 ** fd)
             if fp % 10 == 0:
                 fp += 1
@@ -261,7 +261,7 @@ class Gen(object):
                 i = max(body_idx + [j for j, t in enumerate(toks) if t["k"] == "prime"])
                 # depth 0 is guaranteed after the last body token
                 last = max(j for j, t in enumerate(toks) if t["k"] in ("atom", "close", "prime"))
-                toks.insert(last + 1, {"k": "badchg", "t": r.choice(["+-", "-+", "+2-", "-3+"])})
+                toks.insert(last + 1, {"k": "badchg", "t": r.choice(["+-", "-+", "+2-", "-3+", "+-2", "-+3"])})
                 return toks
         return self.wellformed()
 
